@@ -1085,8 +1085,8 @@ func init() {
 			"race reports with one side in syncsaga/timebank/the hand's updater goroutine/unlocked API methods are the code's baseline and are only counted",
 			"the seat a random reservation obtained is observed through the reserved-player callback (part A) or the final state (part B; histories where such a player has left again are only checked for double booking)",
 		},
-		Cases:         func(tier string) int { return map[string]int{"quick": 600, "thorough": 12000}[tier] },
-		MinNontrivial: func(tier string) int { return map[string]int{"quick": 300, "thorough": 6000}[tier] },
+		Cases:         func(tier string) int { return map[string]int{"quick": 600, "thorough": 8000}[tier] },
+		MinNontrivial: func(tier string) int { return map[string]int{"quick": 300, "thorough": 4000}[tier] },
 		RequiredFeatures: func(string) []string {
 			return []string{"A:storm", "B:storm", "C:simultaneous-actions", "C:rapid-volley-before-publication", "D:batch-atomicity", "E:membership-calls-during-open-retry", "E:retry-opened-the-hand"}
 		},
